@@ -802,7 +802,7 @@ Section ElemSim2.
         - intros s. cbv beta. destruct (a2ml_lookup (crlf_to_lf (tk_text t2)) (ps_a2ml s)) as [[[ty|] msg]|]; reflexivity.
         - intros s. cbv beta. destruct (a2ml_lookup (crlf_to_lf (tk_text t2)) (ps_a2ml s)) as [[[ty|] msg]|]; reflexivity.
         - intros tab. simt. }
-      intros u1 u2 _. eapply sim_bind; [eauto with sim|]. intros e1 e2 _.
+      intros u1 u2 _. eapply sim_bind; [eauto with sim|]. intros e1 e2 _. eapply sim_bind; [eauto with sim|]. intros eo1 eo2 _.
       eapply sim_bind; [unfold end_tag_check; simt|]. intros u3 u4 _. apply sim_ret. reflexivity.
     - eapply sim_bind; [eauto with sim|]. intros i1 i2 _. eapply sim_bind; [eauto with sim|]. intros uid ? <-.
       eapply sim_bind; [eauto with sim|]. intros specs ? <-.
